@@ -93,20 +93,41 @@ _PARSE_CUT = ['_ZN15CPPPreprocessor14get_next_tokenEv',
               '_ZNK15CPPPreprocessor5errorERKNSt7__cxx1112basic_stringIcSt11char_traitsIcESaIcEEERK10cppyyltype',
               '_ZNK15CPPPreprocessor7warningERKNSt7__cxx1112basic_stringIcSt11char_traitsIcESaIcEEERK10cppyyltype']
 
-HARNESSES += [
-    dict(id='c07_parse_x', property='C07', src='c07_parse.cxx', entry='harness_c07_parse_pair',
-         tus=_PARSE_TUS, cut=_PARSE_CUT, skip_ctors=['cppPreprocessor.cxx'],
-         desc='experiment', domain='x', oracle='x',
-         cbmc_flags=['--no-pointer-check'],
-         bounds=dict(quick=dict(defs=dict(I1=5, I2=3), unwind=30, cap=400))),
-    dict(id='c07_parse_y', property='C07', src='c07_parse.cxx', entry='harness_c07_parse_pair',
-         tus=_PARSE_TUS, cut=_PARSE_CUT, skip_ctors=['cppPreprocessor.cxx'],
-         desc='experiment', domain='x', oracle='x',
-         cbmc_flags=['--no-pointer-check'],
-         bounds=dict(quick=dict(defs=dict(I1=5, I2=3, YYINITDEPTH=10), unwind=30, cap=400))),
-    dict(id='c07_parse_z', property='C07', src='c07_parse.cxx', entry='harness_c07_parse_pair',
-         tus=_PARSE_TUS, cut=_PARSE_CUT, skip_ctors=['cppPreprocessor.cxx'],
-         desc='experiment', domain='x', oracle='x',
-         cbmc_flags=['--no-pointer-check'],
-         bounds=dict(quick=dict(defs=dict(I1=5, I2=3, YYINITDEPTH=10, TWO=1), unwind=30, cap=400))),
-]
+_PARSE_OPS = ['*', '/', '%', '+', '-', '<<', '>>', '<', '<=', '>', '>=', '==', '!=', '&', '^', '|', '&&', '||']
+_PARSE_NAMES = ['mul', 'div', 'mod', 'add', 'sub', 'shl', 'shr', 'lt', 'le', 'gt', 'ge', 'eq', 'ne', 'and', 'xor', 'or', 'andand', 'oror']
+
+
+def _parse(hid, defs, tiers, desc, domain, cap):
+    return dict(id=hid, property='C07', src='c07_parse.cxx', entry='harness_c07_parse_pairs',
+                tus=_PARSE_TUS, cut=_PARSE_CUT, skip_ctors=['cppPreprocessor.cxx'], tiers=tiers,
+                # long concrete run (the LALR automaton on concrete token kinds): --pointer-check makes symbolic
+                # execution quadratic in the dead locals of the 11000-variable cppyyparse (70 s instead of 15 s per
+                # parse); bounds/overflow/division checks and the base.c crash assertions stay on, native replay is ASan
+                cbmc_flags=['--no-pointer-check'],
+                desc='the REAL generated parser (bison output of the cppBison.yxx under test) driven through parse_const_expr on the '
+                     'token script START_CONST_EXPR a OP1 b OP2 c <eof> (lexer cut, replaced by the script), result evaluated by the '
+                     'real CPPExpression::evaluate: ' + desc,
+                domain=domain + '; token kinds concrete (concrete loop), literal values a, b, c symbolic in [0, INT_MAX] '
+                       '([0, 63] when OP1 or OP2 is * / %); parser stack depth YYINITDEPTH lowered 200 -> 10 in the encoded build',
+                oracle='parse accepted without diagnostics; whenever the C++ value (C++ precedence levels * / % > + - > << >> > < <= > >= > '
+                       '== != > & > ^ > | > && > ||, all left-associative, written down independently in the harness) is defined and '
+                       'fits in int, evaluate() returns RT_integer with exactly that value',
+                bounds=dict(quick=dict(defs=defs, unwind=30, cap=cap), thorough=dict(defs=defs, unwind=30, cap=cap)))
+
+
+HARNESSES += (
+    [_parse('c07_parse_adj_%d' % p, dict(PAIRSET=1, NPARTS=7, PART=p), ('quick',),
+            'level-by-level subset, part %d of 7' % p,
+            '14 operator pairs: representatives / - >> < == & ^ | && || of the ten levels; for each adjacent pair of levels the '
+            'expression with the looser operator first (a - b / c), plus the same-level pair (a - b - c) for / - >> < ==', 600)
+     for p in range(7)] +
+    [_parse('c07_parse_row_%s_%d' % (_PARSE_NAMES[r], p), dict(PAIRSET=0, ROW=r, NPARTS=3, PART=p), ('thorough',),
+            'OP1 = %s, OP2 = each binary operator with index = %d mod 3' % (_PARSE_OPS[r], p),
+            '6 operator pairs (the 54 row entries cover all 324 ordered pairs)', 1500) for r in range(18) for p in range(3)]
+)
+
+PROPERTY_INFO['C07']['explanation'] += ('; operator precedence/associativity: bounded symbolic execution of the generated LALR parser '
+                                        '(cppyyparse) on three-operand token scripts, value compared with an independent C++ table')
+PROPERTY_INFO['C07']['outside'] = ('precedence of ?:, unary operators, casts and of the no_angle_bracket/formal expression grammars '
+                                   '(same %left table, other productions); references to earlier enumerators/macros (scope lookup); '
+                                   'literal lexing beyond the encoded scanners')
